@@ -22,8 +22,10 @@ CRATES = {
 }
 
 
-def H(name, functions, bound, tiers=("quick", "thorough"), timeout=None, cuts=None, mem_gb=12, kani_args=None, replay="native"):
+def H(name, functions, bound, tiers=("quick", "thorough"), timeout=None, cuts=None, mem_gb=12, kani_args=None, replay="native", unwindset=None):
     d = {"name": name, "functions": functions, "bound": bound, "tiers": list(tiers), "mem_gb": mem_gb, "replay": replay}
+    if unwindset:
+        d["unwindset"] = unwindset
     if timeout:
         d["timeout"] = timeout
     if cuts:
@@ -94,21 +96,32 @@ PROPS["C35"] = {
 
 _HC = "fuel_core_sync::import::cache::Cache::"
 _STEP_CUTS = ["BlockHeaderV1::recalculate_metadata -> no-op (sha256 of the header; the id is never read by the cache code)"]
+_WHOLE_CUTS = ["Cache::collect_cache_data (BTreeMap range scan) -> environment model: exactly N cached headers at ascending in-range heights",
+               "Cache::push_missing_chunks -> its contract (canonical partition of the gap), decided on the real function by c27_gap",
+               "Vec::push -> records a pushed batch in a ghost log and forgets it; ordinary push for every other element type",
+               "per-loop unwinding limit 0 (unwinding assertion on) for the destructors of Vec<Transaction>/Input/Witness/SealedBlock, dead here"]
+_TXDROP = [(r"drop_glue.*(7fuel_tx|5block5Block)", 1)]
 PROPS["C27"] = {
     "crate": "sync",
     "level": "model_checking",
-    "explanation": "The two private functions that produce every batch are executed symbolically on the real types: the gap "
+    "explanation": "The real get_chunks is executed symbolically on the real types for every range of <= 4 heights, every batch "
+                   "size and every placement of at most one cached header, with the batch vector replaced by a recording model and the gap "
+                   "splitter by its contract; the two private functions that produce every batch are decided separately: the gap "
                    "splitter for all u32 arguments (exact canonical partition of the gap), and the accumulation step from every "
                    "shape of the current batch.",
-    "bounds": "gap: all u32 cur <= height <= end, all batch sizes >= 1, at most 4 batches per gap (unwind 6); step: batch size "
-              "1..=3, current batch None / Headers / Blocks with 1 or 2 items, cached item a header or a block, all u32 heights",
-    "outside": "the loop of Cache::get_chunks that composes the two kernels (not reachable: symbolic execution did not finish "
-               "or exhausted 24 GB at range <= 4 with <= 2 cached items, on the real types and on stand-in payload types alike), "
-               "the BTreeMap behind collect_cache_data, ranges ending at u32::MAX",
+    "bounds": "whole function: any u32 start, range length <= 4, batch size <= 4, no cached item or 1 cached header at any height of the "
+              "range (2 cached items exhaust 44 GB, also with fixed positions); gap: all u32 cur <= height <= end, all batch sizes >= 1, at most 4 batches per gap (unwind 6); "
+              "step: batch size 1..=3, current batch None / Headers / Blocks with 1 or 2 items, cached item a header or a block",
+    "outside": "ranges with two or more cached items in the whole-function harness (the interplay of consecutive cached items is "
+               "covered only by the step kernels; an ordering defect between a closed cached batch and the following gap needs two "
+               "cached items and is NOT detected - seeded change C27-A), cached BLOCKS in the whole-function harness (their mixing with headers is covered by the step kernels), the BTreeMap "
+               "behind collect_cache_data (replaced by its contract: ascending in-range items), ranges ending at u32::MAX, longer ranges",
     "assumptions": ["caller contract of push_missing_chunks as in get_chunks: cur <= height <= end",
                     "the current batch handed to handle_current_chunk ends at `height` (debug_assert in the code) and is None(0..0) when empty"],
     "harnesses": [
         H("c27_gap", [_HC + "push_missing_chunks"], "all u32, <= 4 batches per gap", timeout={"quick": 1200, "thorough": 3600}),
+        H("c27_whole_r4_n0", [_HC + "get_chunks", _HC + "handle_current_chunk"], "range <= 4 heights, batch size <= 4, empty cache", cuts=_WHOLE_CUTS, unwindset=_TXDROP, mem_gb=16),
+        H("c27_whole_r4_n1", [_HC + "get_chunks", _HC + "handle_current_chunk"], "range <= 4 heights, batch size <= 4, 1 cached header anywhere", cuts=_WHOLE_CUTS, unwindset=_TXDROP, mem_gb=16),
         H("c27_step_none_header", [_HC + "handle_current_chunk"], "current None(0..0), cached header", cuts=_STEP_CUTS),
         H("c27_step_none_block", [_HC + "handle_current_chunk"], "current None(0..0), cached block", cuts=_STEP_CUTS),
         H("c27_step_headers1_header", [_HC + "handle_current_chunk"], "current Headers(1), cached header, batch size 1..=3", cuts=_STEP_CUTS),
